@@ -162,6 +162,9 @@ def gen_cases(tier, seed):
                                  'gate': {'match': [f't0/s3:UploadPart:{q}#0' for q in range(1, nparts + 1) if q != part], 'phase': 'after', 'policy': 'seeded'}}
                     cases.append(s)
     rng.shuffle(cases)
+    from ..gen import sprinkle
+
+    sprinkle(cases, seed)
     return cases
 
 
